@@ -490,6 +490,21 @@ class VC:
                 return "discharged", "abstract-lra", None, None
         except z3.Z3Exception:
             pass
+        # 0b'. a short attempt on the incremental path solver (proofs only): many If-heavy goals are immediate for z3 while the
+        #      case split below would first run into its deadline
+        if _has_ite(goal):
+            s = CTX.solver
+            s.push()
+            try:
+                s.set("timeout", 1500)
+                s.add(z3.Not(goal))
+                if s.check() == z3.unsat:
+                    return "discharged", "z3", None, None
+            except z3.Z3Exception:
+                pass
+            finally:
+                s.pop()
+                s.set("timeout", CTX.feas_timeout_ms)
         # 0. case split on the If-conditions inside the goal, exact identity check per feasible case
         try:
             cs = self._case_split(pc, goal)
